@@ -268,6 +268,7 @@ fn cmd_run(a: &Args) -> i32 {
                     minimised,
                     original_ops: orig,
                     minimised_ops: case_size(&fin),
+                    engine_flags: a.get("engine-flags", ""),
                     case: fin,
                 };
                 let path = if ctx.miri() {
@@ -375,6 +376,7 @@ fn cmd_mkreplay(a: &Args) -> i32 {
         minimised: false,
         original_ops: case_size(&case),
         minimised_ops: case_size(&case),
+        engine_flags: a.get("engine-flags", ""),
         case,
     };
     let path = write_replay(&a.get("replay-dir", "/verif/replays"), &rf);
